@@ -11,12 +11,12 @@ namespace CV.Validate
 open CV CV.TPath
 
 inductive VErr
-  | exclusive | missing | blank | countAndIds | conflictingExternal | expectedVolume
+  | exclusive | missing | blank | countAndIds | conflictingExternal | expectedVolume | invalidBoolean
 deriving DecidableEq, Repr, Inhabited
 
 def VErr.name : VErr → String
   | .exclusive => "exclusive" | .missing => "missing" | .blank => "blank" | .countAndIds => "countAndIds"
-  | .conflictingExternal => "conflictingExternal" | .expectedVolume => "expectedVolume"
+  | .conflictingExternal => "conflictingExternal" | .expectedVolume => "expectedVolume" | .invalidBoolean => "invalidBoolean"
 
 inductive VOut
   | ok
@@ -68,12 +68,25 @@ def has (k : String) (kvs : Val.KVs) : Bool := (Val.lookup k kvs).isSome
 def externalAllowed (k : String) : Bool :=
   k == "name" || k == "external" || k == "#extensions" || "x-".toList.isPrefixOf k.toList
 
+/-- `asBoolean` (validation/external.go): a boolean, or — interpolation skipped, the cast table has not run — one of the
+    YAML 1.1 spellings the loader converts later; anything else is an error (it used to be an unchecked `b.(bool)`) -/
+def asBoolean : Val → Option Bool
+  | .bool b => some b
+  | .str s =>
+    let l := String.ofList (s.toList.map Char.toLower)
+    if l = "true" || l = "y" || l = "yes" || l = "on" then some true
+    else if l = "false" || l = "n" || l = "no" || l = "off" then some false
+    else none
+  | _ => none
+
 def checkExternal (kvs : Val.KVs) : VOut :=
   match Val.lookup "external" kvs with
   | none => .ok
-  | some (.bool false) => .ok
-  | some (.bool true) => if kvs.all (fun e => externalAllowed e.1) then .ok else .err .conflictingExternal
-  | some _ => .panic "validation.checkExternal"
+  | some x =>
+    match asBoolean x with
+    | some false => .ok
+    | some true => if kvs.all (fun e => externalAllowed e.1) then .ok else .err .conflictingExternal
+    | none => .err .invalidBoolean
 
 def checkVolume : Val → VOut
   | .null => .ok
